@@ -33,10 +33,12 @@ Proof. induction l as [|x t IH]; intros b; cbn [fold_left]; [reflexivity|]. rewr
 Lemma b_params_fold_mention l : forall b, b_params (fold_left mention l b) = b_params b.
 Proof. induction l as [|x t IH]; intros b; cbn [fold_left]; [reflexivity|]. rewrite IH. apply b_params_mention. Qed.
 
-Ltac bsimp :=
-  repeat (rewrite ?b_labels_set_target, ?b_params_set_target, ?b_labels_mention, ?b_params_mention,
-                  ?b_params_touch_label, ?b_labels_fold_mention, ?b_params_fold_mention;
-          cbn [b_labels b_params bemit new_target fst snd f_cur f_done f_names with_cur RefSem.set_label]).
+Ltac bsimp1 :=
+  cbn [b_labels b_params bemit new_target fst snd f_cur f_done f_names with_cur RefSem.set_label];
+  rewrite ?b_labels_set_target, ?b_params_set_target, ?b_labels_mention, ?b_params_mention,
+          ?b_params_touch_label, ?b_labels_fold_mention, ?b_params_fold_mention.
+Ltac bsimp := bsimp1; bsimp1; bsimp1;
+  cbn [b_labels b_params bemit new_target fst snd f_cur f_done f_names with_cur RefSem.set_label].
 
 Lemma ss_move_to s f l : ssame s (move_to s f l).
 Proof.
@@ -150,8 +152,9 @@ Proof.
   - (* ASSIGN *) destruct l as [ln|]; [|discriminate]. unfold fs_assign in H. cbv zeta in H.
     destruct (opt_value r _) as [[s1 v]|] eqn:E; [|discriminate]. apply ov_same in E.
     inversion H; subst s'.
-    eapply sframe_trans; [apply sf_with_cur; bsimp; reflexivity|].
-    eapply sframe_trans; [apply ssame_sframe; exact E|]. apply sf_with_cur; bsimp; reflexivity.
+    eapply sframe_trans; [|eapply sframe_trans; [apply ssame_sframe; exact E|]].
+    + apply sf_with_cur; bsimp; reflexivity.
+    + apply sf_with_cur; bsimp; reflexivity.
   - (* LOOP *) unfold fs_loop in H. cbv zeta in H.
     destruct (opt_value l _) as [[s1 v]|] eqn:E; [|discriminate]. apply ov_same in E.
     unfold new_target in H. cbv beta iota in H.
@@ -169,11 +172,11 @@ Proof.
     match type of H with match fsub r ?x with _ => _ end = _ => set (s1' := x) in H end.
     destruct (fsub r s1') as [s2|] eqn:E2; [|discriminate].
     apply (fsub_sframe _ _ _ IHr) in E2. inversion H; subst s'.
-    eapply sframe_trans; [apply sf_with_cur; bsimp; reflexivity|].
-    eapply sframe_trans; [apply ssame_sframe; exact E|].
-    eapply sframe_trans; [|eapply sframe_trans; [exact E2|]].
-    + subst s1'. apply sf_with_cur; bsimp; reflexivity.
+    eapply sframe_trans; [|eapply sframe_trans; [apply ssame_sframe; exact E|]].
     + apply sf_with_cur; bsimp; reflexivity.
+    + eapply sframe_trans; [|eapply sframe_trans; [exact E2|]].
+      * subst s1'. apply sf_with_cur; bsimp; reflexivity.
+      * apply sf_with_cur; bsimp; reflexivity.
   - (* MARK *) destruct l as [ln|]; [|discriminate]. inversion H; subst s'. apply sf_with_cur; bsimp; reflexivity.
   - (* IF *) destruct l as [[t1 l1 f1 k1 a b]|]; [|discriminate].
     destruct r as [[t2 l2 f2 k2 [target|] b2]|]; try discriminate.
